@@ -475,6 +475,14 @@ async fn c20_async(ctx: &mut Ctx) {
                 }
             }
         }
+        // time passes while the application sits on the requests it holds (from a moment to many
+        // request timeouts)
+        if !held.is_empty() && ctx.tape.choose(4) == 0 {
+            let ms = *ctx.tape.pick(&[50u64, 1500, 2500, 10_000, 600_000]);
+            ctx.fault("application_holds_requests");
+            ctx.ev(format!("t={} the application holds {} request(s) for {ms}ms", now_ms(), held.len()));
+            tokio::time::sleep(std::time::Duration::from_millis(ms)).await;
+        }
         let acts = ctx.tape.choose(4);
         for _ in 0..acts {
             if held.is_empty() {
